@@ -508,9 +508,15 @@ class Execution:
                                     js = "badutf8"
                             except ValueError:
                                 pass
-                self.events.append({"e": "Tool", "tool": name, "targets": args if name in ("commands", "commands1") else [], "rc": rc,
+                extra = {}
+                if name == "inputs":
+                    ins = [l for l in out.decode("latin-1").split("\n") if l]
+                    extra = {"ins": ins, "sorted": ins == sorted(ins)}
+                if name == "targets-all":
+                    extra = {"tall": [l for l in out.decode("latin-1").split("\n") if l]}
+                self.events.append({"e": "Tool", "tool": name, "targets": args if name in ("commands", "commands1", "inputs") else [], "rc": rc,
                                     "started": started, "pre": pre, "tree": post, "logsame": logs_meaning(lpre) == logs_meaning(self._log_bytes()),   # the meaning of both logs (and no lock file left)
-                                    "cmds": cmds, "json": js, "g": graph_json(sc)})
+                                    "cmds": cmds, "json": js, "g": graph_json(sc), **extra})
         finally:
             os.close(req_fd)
 
